@@ -62,6 +62,13 @@ func (ca *CA) Leaf(notBefore, notAfter time.Time, hosts ...string) tls.Certifica
 	return tls.Certificate{Certificate: [][]byte{der}, PrivateKey: key}
 }
 
+// WithIssuer returns the certificate with the CA certificate appended to the chain the server
+// presents (leaf + issuer, as most servers are configured).
+func (ca *CA) WithIssuer(c tls.Certificate) tls.Certificate {
+	c.Certificate = append(append([][]byte(nil), c.Certificate...), ca.Cert.Raw)
+	return c
+}
+
 func (ca *CA) ValidLeaf(hosts ...string) tls.Certificate {
 	return ca.Leaf(time.Now().Add(-time.Hour), time.Now().Add(24*time.Hour), hosts...)
 }
